@@ -201,8 +201,16 @@ def _calc_bit_length(data_type):
         return 8
     elif data_type == datatypes.INTEGER16:
         return 16
+    elif data_type == datatypes.INTEGER24:
+        return 24
     elif data_type == datatypes.INTEGER32:
         return 32
+    elif data_type == datatypes.INTEGER40:
+        return 40
+    elif data_type == datatypes.INTEGER48:
+        return 48
+    elif data_type == datatypes.INTEGER56:
+        return 56
     elif data_type == datatypes.INTEGER64:
         return 64
     else:
